@@ -152,6 +152,7 @@ fn starts_value(t: &[u8], pos: usize) -> bool {
 macro_rules! valid_doc {
     ($name:ident, $n:expr) => {
         #[kani::proof]
+        #[kani::stub(alloc::vec::Vec::push, crate::stubs::push_no_grow)]
         #[kani::unwind(10)]
         #[kani::stub(std_detect::detect::__is_feature_detected::avx2, no)]
         #[kani::stub(succinctly::util::simd::x86::has_fast_bmi2, no)]
@@ -209,6 +210,7 @@ valid_doc!(c32_valid_len7, 7);
 valid_doc!(c32_valid_len8, 8);
 
 #[kani::proof]
+#[kani::stub(alloc::vec::Vec::push, crate::stubs::push_no_grow)]
 #[kani::unwind(10)]
 #[kani::stub(std_detect::detect::__is_feature_detected::avx2, no)]
 #[kani::stub(succinctly::util::simd::x86::has_fast_bmi2, no)]
